@@ -1,6 +1,6 @@
 (* C06  Every command completes.  Statements only (coq/Model/Conc.v). *)
 From Nodis Require Import Model.Conc Proofs.ConcProofs Proofs.ConcGenProofs Proofs.ConcLiveProofs.
-From Nodis Require Model.RWPref Proofs.RWPrefProofs.
+From Nodis Require Model.RWPref Proofs.RWPrefProofs Proofs.RWMultiProofs.
 From Coq Require Import ZArith List Bool Arith.
 Import ListNotations.
 Local Open Scope Z_scope.
@@ -127,6 +127,20 @@ Theorem C06_single_key_commands_never_deadlock : forall ps sched,
   Forall (fun p => (length p <= 1)%nat) ps -> RWPref.deadlocked (RWPref.run sched (RWPref.start ps)) = false.
 Proof. exact RWPrefProofs.single_key_commands_never_deadlock. Qed.
 Print Assumptions C06_single_key_commands_never_deadlock.
+
+(* a second repair condition, a one-mutex patch: commands that lock several keys first take one global mutex
+   (key mu; their other keys in ANY order, each once), commands that lock one key do not.  Then no schedule of
+   any number of such commands deadlocks - the opposite moves and the crossing readers included *)
+Theorem C06_serialised_multi_key_commands_never_deadlock : forall mu ps sched,
+  Forall (fun p => RWMultiProofs.single_prog mu p \/ RWMultiProofs.multi_prog mu p) ps ->
+  RWPref.deadlocked (RWPref.run sched (RWPref.start ps)) = false.
+Proof. exact RWMultiProofs.serialised_commands_never_deadlock. Qed.
+Print Assumptions C06_serialised_multi_key_commands_never_deadlock.
+Example C06_serialised_nonvacuous :
+  Forall (fun p => RWMultiProofs.single_prog 9 p \/ RWMultiProofs.multi_prog 9 p)
+    [[RWPref.WL 9; RWPref.WL 0; RWPref.WL 1]; [RWPref.WL 9; RWPref.WL 1; RWPref.WL 0]; [RWPref.WL 9; RWPref.RL 1; RWPref.RL 0];
+     [RWPref.WL 9; RWPref.RL 0; RWPref.RL 1]; [RWPref.WL 1]; [RWPref.WL 0]; [RWPref.RL 0]]%nat.
+Proof. exact RWMultiProofs.serialised_lockorder_cases. Qed.
 
 (* the premise is met by real command mixes: two moves in the same direction, a reader of both keys and a writer of each *)
 Example C06_ordered_nonvacuous :
